@@ -219,6 +219,13 @@ def thread_bools(body):
             env = dict(env)
             _kill(env, t0["place"]["l"], roots)
             start = t0["target"]
+        elif t0["t"] == "switch" and _cond_drop(blocks, d, t0) is not None and len([p_ for p_ in body.preds()[_cond_drop(blocks, d, t0)[0]] if not blocks[p_]["cleanup"]]) == 1:
+            # the block that stores the value ends in `if flag { drop(x) }`: both sides continue at the join
+            env = _seed_env(body, bl, roots)
+            env = dict(env)
+            seed_diamond = _cond_drop(blocks, d, t0)
+            _kill(env, blocks[seed_diamond[0]]["term"]["place"]["l"], roots)
+            start = seed_diamond[1]
         elif t0["t"] == "call":
             env = _seed_env(body, bl, roots)
             k = _call_knowledge(body, env, t0)
@@ -347,6 +354,12 @@ def thread_bools(body):
             entry = first_new
         if t0["t"] == "goto":
             bl["term"] = {"t": "goto", "target": entry}
+        elif t0["t"] == "switch":
+            dblk_, join_ = seed_diamond
+            t0["arms"] = [[v_, (entry if tg_ == join_ else tg_)] for (v_, tg_) in t0["arms"]]
+            if t0["otherwise"] == join_:
+                t0["otherwise"] = entry
+            blocks[dblk_]["term"]["target"] = entry
         else:
             t0["target"] = entry
         n_threaded += 1
@@ -378,3 +391,97 @@ def thread_bools(body):
                 blocks[b]["term"] = {"t": "unreachable"}
                 blocks[b]["dead"] = True
     return n_threaded
+
+
+# ------------------------------------------------------------------------------------------------------------------
+def fold_constant_switches(body):
+    """`let kind = Kind::A; .. match kind { .. }` with nothing in between that could change `kind` (one definition, never
+    mutably borrowed): the match is decided.  After inlining a helper that is specialised by an enum / bool argument
+    (`decode_path(s, PathKind::Subpath)`) this removes the arms of the other specialisations.  Global, not path-based: a
+    local with a single definition has that value wherever it is read.  Returns the number of switches folded."""
+    blocks = body.blocks
+    defs = {}
+    borrowed = set()
+    for b, bl in enumerate(blocks):
+        if bl["cleanup"]:
+            continue
+        for st in bl["stmts"]:
+            if st.get("s") == "assign":
+                if not st["place"]["proj"]:
+                    defs.setdefault(st["place"]["l"], []).append(st)
+                else:
+                    borrowed.add(st["place"]["l"])
+                rv = st["rv"]
+                if rv["r"] in ("ref", "rawptr") and (rv.get("bk") == "mut" or "Mut" in str(rv.get("bk"))):
+                    borrowed.add(rv["place"]["l"])
+            elif st.get("s") == "setdiscr":
+                borrowed.add(st["place"]["l"])
+        t = bl["term"]
+        if t["t"] == "call":
+            if not t["dest"]["proj"]:
+                defs.setdefault(t["dest"]["l"], []).append(None)
+            else:
+                borrowed.add(t["dest"]["l"])
+
+    def value_of(l, depth=0):
+        """("variant", index) / ("bool", b) of a single-definition local, through whole-local copies"""
+        if depth > 6 or l in borrowed or l <= body.arg_count:
+            return None
+        ds = defs.get(l, [])
+        if len(ds) != 1 or ds[0] is None:
+            return None
+        rv = ds[0]["rv"]
+        if rv["r"] == "aggregate" and rv.get("ak") == "adt" and not rv.get("ops") and rv.get("variant_idx") is not None:
+            return ("variant", rv["variant_idx"])
+        if rv["r"] == "use" and rv["op"]["o"] == "const" and isinstance(rv["op"]["c"].get("v"), bool):
+            return ("bool", rv["op"]["c"]["v"])
+        if rv["r"] == "use" and rv["op"]["o"] in ("copy", "move") and not rv["op"]["place"]["proj"]:
+            return value_of(rv["op"]["place"]["l"], depth + 1)
+        if rv["r"] == "discr" and not rv["place"]["proj"]:
+            v = value_of(rv["place"]["l"], depth + 1)
+            if v is not None and v[0] == "variant":
+                ds_ = rv.get("discrs")
+                return ("int", ds_[v[1]] if ds_ and v[1] < len(ds_) else v[1])
+        return None
+    n = 0
+    for b, bl in enumerate(blocks):
+        t = bl["term"]
+        if bl["cleanup"] or t["t"] != "switch" or t["discr"]["o"] not in ("copy", "move") or t["discr"]["place"]["proj"]:
+            continue
+        v = value_of(t["discr"]["place"]["l"])
+        if v is None:
+            continue
+        val = (1 if v[1] else 0) if v[0] == "bool" else v[1] if v[0] == "int" else None
+        if val is None:
+            continue
+        tgt = t["otherwise"]
+        for (x, tg) in t["arms"]:
+            if x == val:
+                tgt = tg
+        bl["term"] = {"t": "goto", "target": tgt, "folded": True}
+        n += 1
+    if n:
+        reach = set()
+        st_ = [0]
+        while st_:
+            x = st_.pop()
+            if x in reach:
+                continue
+            reach.add(x)
+            t = blocks[x]["term"]
+            k = t["t"]
+            if k == "goto":
+                st_.append(t["target"])
+            elif k == "switch":
+                st_.extend([tg for (_, tg) in t["arms"]] + [t["otherwise"]])
+            elif k in ("call", "drop", "assert"):
+                if t.get("target") is not None:
+                    st_.append(t["target"])
+                if isinstance(t.get("unwind"), int):
+                    st_.append(t["unwind"])
+        for x in range(len(blocks)):
+            if x not in reach and not blocks[x]["cleanup"]:
+                blocks[x]["stmts"] = []
+                blocks[x]["term"] = {"t": "unreachable"}
+                blocks[x]["dead"] = True
+    return n
